@@ -109,24 +109,35 @@ def _fill_level():
         'has the worker\'s value of every shipped attribute (values, result, executed, options, ...), keeps its own '
         'unshipped ones, gets per-action out/err position by position, and process_task_result receives the worker\'s '
         'failure.  ' +
-        ('C08_status_is_den, C08_confluence_status, C08_complete_reports_closure, C08_exit_of_reports, '
-         'C08_confluence_partial, C08_den_computable, C08_monitors_hold: over graphs with task_dep and setup edges (after '
-         'expansion: getargs, result_dep, target->file_dep), in every reachable state of the serial, thread and process '
-         'transition systems of the run model (every schedule, every numProcess, every set-iteration order) every finished '
-         'run_status and every terminal report (success / up-to-date / ignored / failure kind) equals the denotation DenOf, '
-         'which depends on the task table and the oracle only; a complete run (no failure, or --continue) reports exactly '
-         'the denotational closure of the selection; hence two complete runs under ANY two runners/schedules report the '
-         'same tasks with the same outcomes (same save/remove DB effects) and return the same exit code; on acyclic '
-         'graphs the executable denF/denClosure/denExit evaluated by the driver are that denotation.  ' if conf else
-         'The confluence half is stated (C08_confluence_full) and covered by the correspondence and the differential '
-         'monitor only.  ') +
+        ('C08_confluence (FULL statement, theorem; no NoCalc, no Acyclic hypothesis), C08_status_is_den_dyn, '
+         'C08_confluence_status_dyn, C08_complete_reports_closure_dyn, C08_complete_exit_dyn, C08_pair_monitor_holds: over '
+         'ANY task graph - task_dep, setup edges and dynamic calc_dep edges (a calc task delivers task_dep / file_dep '
+         'owners / further calc_dep when it is executed or up-to-date; the oracle calcRes is a function of the task) - '
+         'in every reachable state of the serial, thread and process transition systems of the run model (every '
+         'schedule, every numProcess, every set-iteration order, every arrival order of calc results) every finished '
+         'run_status and every terminal report (success / up-to-date / ignored / failure kind) equals the denotation '
+         'Dyn.DenOf, which depends on the task table and the oracle only (its dependency set is the least set closed '
+         'under what good calc_deps deliver); a complete run (no failure, or --continue) reports exactly the '
+         'denotational closure Dyn.DenCl of the selection; hence two complete runs under ANY two runners/schedules '
+         'report the same tasks with the same outcomes (same save/remove DB effects), leave the same run_status and '
+         'return the same exit code, and the pair monitor monC08Pair holds of them.  C08_den_dyn_noCalc: on graphs '
+         'without calc_dep Dyn.DenOf is the static DenOf of C08_status_is_den, C08_confluence_status, '
+         'C08_complete_reports_closure, C08_exit_of_reports, C08_confluence_partial, C08_den_computable, '
+         'C08_monitors_hold (kept): there, on acyclic graphs, the executable denF/denClosure/denExit evaluated by the '
+         'driver are that denotation.  ' if conf else
+         'The confluence half is covered by the correspondence and the differential monitor only.  ') +
         'Tied to doit on every run: trace acceptance of every serial/thread/process run by the M1 model, denotation vs. '
         'observed reports/closure/exit code, API-level differential test of the pickling functions, and the property '
         'statement itself evaluated on serial-vs-parallel real runs (outcomes, exit code, values, results, captured '
         'output, failure text, DB dump, file digests).')
     META['level_note'] = (
-        'Partial: dynamic calc_dep edges are outside the confluence theorems (hypothesis NoCalc; C08_confluence_full '
-        'stays a def) and are covered by K1 + P only; values/results/target files are not part of the run model (their '
+        'Confluence is proved in full (C08_confluence covers dynamic calc_dep edges; C08_confluence_partial is the '
+        'NoCalc special case, kept).  Not proved: an executable denotation for graphs WITH calc_dep (denF / denClosure / '
+        'denExit and hence the driver monitor monC08Den / K2 stay restricted to NoCalc + acyclic inputs; on calc graphs '
+        'the denotation is the relational Dyn.DenOf and the check relies on K1 + the pair monitor P, which '
+        'C08_pair_monitor_holds proves of the model); totality of Dyn.DenOf on acyclic calc graphs is not stated (not '
+        'needed: a run that ends without exception has derived every outcome it reports).  values/results/target files '
+        'are not part of the run model (their '
         'equality across runners is the differential monitor P plus data_intact for the queue crossing).  Monitor (P): '
         'Lean predicate monC08Pair for reports+exit through the driver; the data/DB/file comparison is a Python equality '
         'on canonical JSON.  Trusted: '
@@ -1302,10 +1313,11 @@ def run(ctx, scale=1.0):
     # process-mode runs fork real worker processes: not possible inside the (daemonic) pool workers
     for st in fork_map(eval_batch, cmain + main, procs=4):
         st.merge_into(ctx)
-    ctx.extra['hypotheses'] = {'NoCalc+acyclic (confluence theorems / K2)': ctx.dist.get('hyp_nocalc_acyclic:True', 0),
-                               'not satisfied (calc_dep present): P and K1 only': ctx.dist.get('hyp_nocalc_acyclic:False', 0)}
-    ctx.extra['partial_theorems'] = ['C08_confluence_partial (hypothesis NoCalc); C08_confluence_full (dynamic calc_dep '
-                                     'edges) is a def only, covered by K1 + P']
+    ctx.extra['hypotheses'] = {'NoCalc+acyclic (executable denotation denF / K2 / monC08Den)': ctx.dist.get('hyp_nocalc_acyclic:True', 0),
+                               'calc_dep present (C08_confluence, C08_pair_monitor_holds; K1 + P)': ctx.dist.get('hyp_nocalc_acyclic:False', 0)}
+    ctx.extra['partial_theorems'] = ['C08_confluence_partial (hypothesis NoCalc) is subsumed by the theorem C08_confluence '
+                                     '(any graph, dynamic calc_dep edges); C08_den_computable / C08_monitors_hold '
+                                     '(executable denF) remain restricted to NoCalc + Acyclic']
 
 
 def search(ctx):
